@@ -13,8 +13,10 @@ CONSTANTS Kinds,       \* family universes: "plain" (shapes over {a, b, V} up to
           ServerSet,   \* server shapes to cross with
           MixedServerSet, MixedCoreServers,   \* the same two sets for the "mixed" universe
           MixedMethKeys,                      \* method sets a template of the "mixed" universe may have
+          PlainMethKeys,                      \* ... and of the "plain" universe (keys of RouterUniverse!MethSets)
           CoreLen, CoreT, CoreServers,   \* documents within these bounds are always emitted ...
-          Slice, Seed  \* ... of the others every Slice-th one, chosen by Seed (Slice = 0: none)
+          Slice, Seed, \* ... of the others every Slice-th one, chosen by Seed (Slice = 0: none)
+          DesignAll    \* TRUE: the design check (MC_C09!DesignOK) runs on every document; FALSE: on the emitted ones only
 
 VARIABLES tm, sk, kind
 vars == <<tm, sk, kind>>
@@ -31,12 +33,12 @@ MethOK(f) == LET lo == CHOOSE s \in DOMAIN f : \A s2 \in DOMAIN f : ShapeRank(s)
              IN f[lo] # "P"
 
 AddTemplate == /\ sk = "" /\ Cardinality(DOMAIN tm) < MaxT
-               /\ \E sh \in ShapeSet \ DOMAIN tm, mk \in (IF Small THEN MixedMethKeys ELSE MethKeys) :
+               /\ \E sh \in ShapeSet \ DOMAIN tm, mk \in (IF Small THEN MixedMethKeys ELSE PlainMethKeys) :
                      tm' = [s \in DOMAIN tm \cup {sh} |-> IF s = sh THEN mk ELSE tm[s]]
                /\ UNCHANGED <<sk, kind>>
 
 ChooseServer == /\ sk = "" /\ DOMAIN tm # {} /\ MethOK(tm)
-                /\ \E k \in (IF Small THEN MixedServerSet ELSE ServerSet) : (k = "pslast" => Cardinality(DOMAIN tm) > 1) /\ sk' = k
+                /\ \E k \in (IF Small THEN MixedServerSet ELSE ServerSet) : (k \in LastOverrideKeys => Cardinality(DOMAIN tm) > 1) /\ sk' = k
                 /\ UNCHANGED <<tm, kind>>
 
 Next == AddTemplate \/ ChooseServer
@@ -49,12 +51,13 @@ InCore == /\ Cardinality(DOMAIN tm) <= CoreT
           /\ IF kind = "root" THEN sk \in MixedServerSet        \* the root template matters under a base path
              ELSE IF Small THEN sk \in MixedCoreServers
              ELSE sk \in CoreServers /\ \A s \in DOMAIN tm : Len(s) <= CoreLen
-MethCode(mk) == CASE mk = "G" -> 1 [] mk = "P" -> 2 [] mk = "GP" -> 3
+MethCode(mk) == CASE mk = "G" -> 1 [] mk = "P" -> 2 [] mk = "GP" -> 3 [] mk = "GR" -> 4
 Mix(n) == (n * 7919) % 1013
 Hash == MapThenSumSet(LAMBDA s : Mix(ShapeRank(s) + 1000 * MethCode(tm[s])), DOMAIN tm) + Mix(SrvRank(sk))
 InSlice == Slice > 0 /\ (Hash + Seed) % Slice = 0
 
 Emitted == Complete /\ (InCore \/ InSlice)
+DesignScope == IF DesignAll THEN Complete ELSE Emitted
 
 (* CSVWrite is atomic per line only for short lines (lines over 8 KiB written by several  *)
 (* workers interleave): a document's requests are written in chunks of ChunkLen, each    *)
